@@ -841,3 +841,10 @@ def x27(cx: Cx, ob: Ob) -> None:
     from .c13 import d4 as loaders_d4
 
     loaders_d4.fn(cx, ob) if hasattr(loaders_d4, "fn") else loaders_d4(cx, ob)
+
+
+@obligation("C14-X7", "IDX (shared with C05-D1): pattern_map holds, for every record, exactly the pattern that record carries - on the constructor path, in _index and wherever else the table is written: the writers serialise the RECORDS, so a pattern that only the table knows (or knows differently) is not what a reader of the written file gets back", floor=2)
+def x7(cx: Cx, ob: Ob) -> None:
+    from .c01 import check_table_roles
+
+    check_table_roles(cx, ob, ["pattern_map"])
